@@ -351,3 +351,43 @@ Theorem C13_code_SMoveByTwoBuckets_eq : forall now g w t b1 k1 b2 k2 x, tx_abs g
 Proof. exact go_Tx_SMoveByTwoBuckets_eq. Qed.
 Print Assumptions C13_code_SMoveByTwoBuckets_eq.
 
+
+(* ---------------------------------------------------------------------- *)
+(** sorted-set write calls of the transaction layer (tx_zset.go ZRem, ZRemRangeByRank), translated into
+    generated/GoTxZ.v (tie txz).  C13: the call is the model's [do_op] branch — one record with the model's
+    fields appended to the pending writes, the indexes of tx.db untouched until Commit; C12: on every error
+    the transaction object is unchanged, and a finished transaction gets an error.  [zhas b] stands for
+    [alookup (ix_zset ix) b <> None].  Statements copied from gosem/GoTxZFacts.v. *)
+From VerifGo Require GoTxZFacts.
+From VerifGen Require GoTxZ.
+
+Theorem C13_code_ZRem_eq : forall now g zhas t b k,
+  GoTxZFacts.txz_abs g zhas t -> GoTxZFacts.now_ok now -> GoTxZFacts.arg_ok b -> GoTxZFacts.arg_ok k ->
+  let mr := if zhas b then tx_put t b k [] 0 F_ZRem (Z.to_N now) DS_ZSet else (t, RErr) in
+  exists g' e,
+    GoTxZ.go_Tx_ZRem now g b k = GOk (g', e) /\
+    GoTxZFacts.txz_abs g' zhas (fst mr) /\ GoTxZ.Tx_db g' = GoTxZ.Tx_db g /\ (e <> ENil -> g' = g) /\
+    GoTxZFacts.err_of_res e (snd mr).
+Proof. exact GoTxZFacts.go_Tx_ZRem_eq. Qed.
+Print Assumptions C13_code_ZRem_eq.
+
+Theorem C13_code_ZRemRangeByRank_eq : forall now g zhas t b s e,
+  GoTxZFacts.txz_abs g zhas t -> GoTxZFacts.now_ok now -> GoTxZFacts.arg_ok b ->
+  GoTxZFacts.arg_ok (print_Z s) -> GoTxZFacts.arg_ok (print_Z e) ->
+  let mr := if zhas b then tx_put t b (print_Z s) (print_Z e) 0 F_ZRemRange (Z.to_N now) DS_ZSet else (t, RErr) in
+  exists g' er,
+    GoTxZ.go_Tx_ZRemRangeByRank now g b s e = GOk (g', er) /\
+    GoTxZFacts.txz_abs g' zhas (fst mr) /\ GoTxZ.Tx_db g' = GoTxZ.Tx_db g /\ (er <> ENil -> g' = g) /\
+    GoTxZFacts.err_of_res er (snd mr).
+Proof. exact GoTxZFacts.go_Tx_ZRemRangeByRank_eq. Qed.
+Print Assumptions C13_code_ZRemRangeByRank_eq.
+
+Theorem C12_code_ZRem_closed : forall now g b k, GoTxZ.Tx_db_isnil g = true ->
+  exists e, GoTxZ.go_Tx_ZRem now g b k = GOk (g, e) /\ e <> ENil.
+Proof. exact GoTxZFacts.go_Tx_ZRem_closed. Qed.
+Print Assumptions C12_code_ZRem_closed.
+
+Theorem C12_code_ZRemRangeByRank_closed : forall now g b s e, GoTxZ.Tx_db_isnil g = true ->
+  exists er, GoTxZ.go_Tx_ZRemRangeByRank now g b s e = GOk (g, er) /\ er <> ENil.
+Proof. exact GoTxZFacts.go_Tx_ZRemRangeByRank_closed. Qed.
+Print Assumptions C12_code_ZRemRangeByRank_closed.
